@@ -191,27 +191,32 @@ func sampleElem(c vals.V) vals.V {
 		e := embOf("a", 1, nil)
 		e.K = strings.TrimPrefix(c.K, "[]")
 		return e
+	case "[]qty":
+		return vals.V{K: "qty", S: "1"}
+	case "[2]ratio":
+		return vals.V{K: "ratio", S: "1.5"}
+	case "[]dur":
+		return vals.V{K: "dur", S: "5ns"}
 	}
 	return vals.Str("a")
 }
 
-// noExpr: names that the documentation tells authors not to use as variables in expressions
-// (docs/expressions.md "Variable Names to Avoid": count, len). They are used as loop variables
-// and printed with {{ name }}, but not put into expressions. Names of registered template
+// noExpr: names that are printed, looped over and shadowed but not put into expressions (today
+// only the promoted scalars of embedding roots, see below). Names of registered template
 // functions that the documentation does not list (title, type, file, upper, json, default, trim,
-// lower) ARE used in expressions: the innermost binding wins over a function like over an outer
-// variable.
+// lower) and of expression-library built-ins (first, last, max, count) ARE used in expressions:
+// the innermost binding wins over a function like over an outer variable.
 func noExpr(path string) bool {
 	head := strings.SplitN(path, ".", 2)[0]
 	// Pname / Ptotal: scalars PROMOTED into the root struct from an embedded struct. Path lookup
 	// finds them; the expression environment lists a root struct's own fields only (another
 	// property's subject), so they are printed, looped over and shadowed, not compared.
-	return head == "count" || head == "Pname" || head == "Ptotal"
+	return head == "Pname" || head == "Ptotal"
 }
 
 // funcNames: registered template functions (funcmap.go) used as variable names.
 var funcNames = map[string]bool{"title": true, "type": true, "file": true, "upper": true, "lower": true, "trim": true, "json": true, "default": true,
-	"string": true, "int": true, "escape": true, "len": true, "formatTime": true, "formatDate": true, "jsonPretty": true, "jsonFile": true, "yamlFile": true}
+	"string": true, "int": true, "escape": true, "len": true, "first": true, "last": true, "max": true, "min": true, "count": true, "formatTime": true, "formatDate": true, "jsonPretty": true, "jsonFile": true, "yamlFile": true}
 
 var strLits = []string{"a", "b", "c", "d", "p", "RN"}
 var fltLits = []string{"0.5", "1.5", "2.25", "3.75"}
@@ -337,6 +342,23 @@ func readsFor(sc sscope, d Data, name string, salt int, choose func(n int) int, 
 		}
 		return out
 	}
+	if truthOnly(s.K) {
+		// items of a named numeric type: printed, bound, tested for truthiness - never compared
+		for _, r := range []Read{{Pos: "vif", Cond: Cond{Path: path}}, {Pos: "attr", Cond: Cond{Path: path}}} {
+			if keep() {
+				out = append(out, r)
+			}
+		}
+		if rich {
+			for _, r := range []Read{{Pos: "vshow", Cond: Cond{Path: path}}, {Pos: "class", Cond: Cond{Path: path}}, {Pos: "style", Cond: Cond{Path: path}},
+				{Pos: "vtext", Cond: Cond{Path: path}}, {Pos: "thtml", Cond: Cond{Path: path}}} {
+				if keep() {
+					out = append(out, r)
+				}
+			}
+		}
+		return out
+	}
 	op := "=="
 	switch {
 	case salt%5 == 3:
@@ -433,7 +455,7 @@ func probeRich(id string, sc sscope, d Data, names []string, salt int, choose fu
 var letters = []string{"a", "b", "c", "d", "p", "q"}
 
 // collKinds are the sequence kinds of the property's quantifier ("[]any" in three flavours).
-var collKinds = []string{"[]any:str", "[]any:int", "[]any:map", "[]string", "[]int", "[]float64", "[]bool", "[3]int", "[]map", "[]rec", "[]*rec", "[]emb", "[]pemb", "[]*emb"}
+var collKinds = []string{"[]any:str", "[]any:int", "[]any:map", "[]string", "[]int", "[]float64", "[]bool", "[3]int", "[]map", "[]rec", "[]*rec", "[]emb", "[]pemb", "[]*emb", "[]qty", "[2]ratio", "[]dur"}
 
 // fixedColl builds a collection of kind k with n distinct items (deterministic).
 func fixedColl(k string, n int) vals.V {
@@ -454,6 +476,11 @@ func fixedColl(k string, n int) vals.V {
 			l = append(l, recOf(letters[i], "t"+letters[i], i+1))
 		case "[]emb", "[]pemb", "[]*emb":
 			l = append(l, embOf(letters[i], i+1, []string{"x" + letters[i]}))
+		case "[]qty", "[]dur":
+			// zero first, then alternating: one item = all zero
+			l = append(l, vals.Int(i%2*(i+2)))
+		case "[2]ratio":
+			l = append(l, vals.Num("float64", []string{"0", "1.5"}[i%2]))
 		}
 	}
 	kind := strings.SplitN(k, ":", 2)[0]
@@ -520,9 +547,16 @@ func core1(full bool, yield func(Case) bool) {
 		if k == "[3]int" {
 			max = 3
 		}
+		if k == "[2]ratio" {
+			max = 2
+		}
+		named := k == "[]qty" || k == "[2]ratio" || k == "[]dur"
 		for n := 0; n <= max; n++ {
 			if !full && strings.HasSuffix(k, "emb") && n != 0 && n != 2 {
 				continue // quick tier: the embedding struct kinds with 0 and 2 items only
+			}
+			if !full && named && n != 1 && n != 2 {
+				continue // quick tier: named numeric items: [0] (all zero) and [0, x]
 			}
 			colls = append(colls, fixedColl(k, n))
 		}
@@ -558,8 +592,8 @@ func core1(full bool, yield func(Case) bool) {
 				collName = "nope"
 			}
 			elem := sampleElem(coll)
-			// the fresh name is v or the name of a registered template function
-			varNames := append([]string{[]string{"v", "type", "upper", "title"}[ci%4]}, rs.shadow...)
+			// the fresh name is v, the name of a registered template function or of an expression built-in
+			varNames := append([]string{[]string{"v", "type", "first", "title", "upper", "count"}[ci%6]}, rs.shadow...)
 			varNames = append(varNames, collName)
 			for _, vn := range varNames {
 				idxNames := []string{"", "i", rs.idxName}
@@ -584,7 +618,9 @@ func core1(full bool, yield func(Case) bool) {
 					}
 					var combos []combo
 					if full {
-						for e := -1; e < len(elseSeps); e++ {
+						// absent, adjacent, blank, comment (the newline variants are met by the rotation of the
+						// quick tier, core2 / core3 and the random nests)
+						for _, e := range []int{-1, 0, 1, 3} {
 							for _, vif := range vifs {
 								for _, tag := range []string{"div", "template"} {
 									combos = append(combos, combo{e, vif, tag, false})
@@ -624,7 +660,7 @@ func core1(full bool, yield func(Case) bool) {
 						case "item":
 							p, s, _, _ := scalarPaths(inner, d, vn)
 							c := &Cond{Path: p[0], Op: "!=", Lit: litFor(s[0], 1)}
-							if s[0].K == "bool" {
+							if s[0].K == "bool" || truthOnly(s[0].K) {
 								c = &Cond{Path: p[0]}
 							}
 							if hasNil(coll) {
@@ -658,7 +694,7 @@ func core1(full bool, yield func(Case) bool) {
 							}
 							setter.Val = "S" + setter.Name + "x"
 							if !cb.text {
-								if p, sm, _, ok := scalarPaths(inner, d, vn); ok && !noExpr(p[0]) && !hasNil(coll) && sm[0].K != "bool" {
+								if p, sm, _, ok := scalarPaths(inner, d, vn); ok && !noExpr(p[0]) && !hasNil(coll) && sm[0].K != "bool" && !truthOnly(sm[0].K) {
 									setter.ID, setter.If = "s1", &Cond{Path: p[0], Op: "!=", Lit: litFor(sm[0], 2)}
 								}
 							}
@@ -902,6 +938,10 @@ func (g *gen) elem(k string, depth int, label string) vals.V {
 			}
 		}
 		return m
+	case "[]qty", "[]dur":
+		return vals.Int(g.int(0, 2, label) * 3) // zero as often as not
+	case "[2]ratio":
+		return vals.Num("float64", g.pick([]string{"0", "0", "1.5", "2.25"}, label))
 	case "[]emb", "[]pemb", "[]*emb":
 		var tags []string
 		for k := g.int(0, 3, label+"tags"); k > 0; k-- {
@@ -926,6 +966,9 @@ func (g *gen) coll(k string, depth int, label string) vals.V {
 	max := 4
 	if k == "[3]int" {
 		max = 3
+	}
+	if k == "[2]ratio" {
+		max = 2
 	}
 	if depth > 0 {
 		max = 3
@@ -1002,8 +1045,8 @@ func (g *gen) data() {
 }
 
 // fresh names; value / href / lang / id are also common attribute names (:value="value")
-var freshVars = []string{"v", "w", "it", "e", "q", "value", "href", "lang", "type", "title", "file", "upper", "json", "default"}
-var freshIdx = []string{"i", "j", "k", "n", "id", "trim", "lower"}
+var freshVars = []string{"v", "w", "it", "e", "q", "value", "href", "lang", "type", "title", "file", "upper", "json", "default", "first", "last"}
+var freshIdx = []string{"i", "j", "k", "n", "id", "trim", "lower", "max", "count"}
 
 // incNames: prop names of generated component calls; they overlap with root keys, loop
 // variable names and names that are never defined.
@@ -1071,7 +1114,7 @@ func (g *gen) cond(sc sscope, l *Loop, outerNames []string) *Cond {
 			}
 			return &Cond{Path: p, Op: "==", Lit: litFor(s, g.int(0, 9, "iflit"))}
 		}
-		if s.K == "bool" && g.int(0, 1, "iftruthy") == 0 {
+		if truthOnly(s.K) || (s.K == "bool" && g.int(0, 1, "iftruthy") == 0) {
 			return &Cond{Path: p}
 		}
 		salt := g.int(0, 9, "iflit")
